@@ -3,6 +3,8 @@ import RgVerif.Lemmas.HirC01Regex
 import RgVerif.Lemmas.HirContext
 import RgVerif.Lemmas.HirContextU
 import RgVerif.Lemmas.HirContextCRLF
+import RgVerif.Lemmas.HirOwnAnchors
+import RgVerif.Lemmas.HirLift
 /-
 C01, regex part — what the matcher built by `RegexMatcherBuilder::build_many` (`Config.build`)
 contributes to "a line is reported iff the pattern matches that line":
@@ -267,6 +269,93 @@ theorem CrlfMatchInsideContent_full_fails : ¬ CrlfMatchInsideContent_full := by
   have := hfull (fun _ => false) (.look .WordAsciiNegate) (by rfl) (by rfl) (by rfl) [97, 13, 10] 0 1 hl 2 2
     (by decide) (by decide) (crlf_match_between_cr_and_lf _)
   omega
+
+/-! ### patterns whose buffer matches are still taken as confirmed (`verify_on_line = false`, /repo 4165f41) -/
+
+/-- **Clause (b) with no guard at all** for exactly the patterns for which `find_candidate_line` still answers
+`Confirmed`: if `verify_on_line` is off (every look is `(?m)^` / `(?m)$`) and `crlf` is off, the expression matches
+a span inside any line window of any buffer iff it matches that span of the line taken alone.  For every other
+pattern the matcher now answers `Candidate` and the searcher judges the line itself. -/
+theorem LineSafeB_own_anchors (isWord : Nat → Bool) (cfg : Config) (hcrlf : cfg.crlf = false) (h : Hir)
+    (hv : cfg.verifyOnLine h = false)
+    (buf : Bytes) (ls le : Nat) (hl : IsLine 10 buf ls le) (s e : Nat) (h1 : ls ≤ s) (hse : s ≤ e) (h2 : e ≤ le) :
+    Matches (lookAt isWord) h buf s e ↔ Matches (lookAt isWord) h (slice buf ls le) (s - ls) (e - ls) := by
+  have hown := allLooks_own_of_not_verify cfg h hv
+  have hsafe : allLooks safeLookLF h = true :=
+    allLooks_mono (by intro k hk; cases k <;> simp_all [Config.isOwnAnchor, safeLookLF]) h hown
+  exact LineSafeB_partial isWord h hsafe buf ls le hl s e h1 hse h2
+
+/-- the same under `--crlf` on the content of a line (`IsLineCRLF`), again without any guard -/
+theorem LineSafeB_own_anchors_crlf (isWord : Nat → Bool) (cfg : Config) (hcrlf : cfg.crlf = true) (h : Hir)
+    (hv : cfg.verifyOnLine h = false)
+    (buf : Bytes) (ls le : Nat) (hl : IsLineCRLF buf ls le) (s e : Nat) (h1 : ls ≤ s) (hse : s ≤ e) (h2 : e ≤ le) :
+    Matches (lookAt isWord) h buf s e ↔ Matches (lookAt isWord) h (slice buf ls le) (s - ls) (e - ls) := by
+  have hown := allLooks_own_of_not_verify cfg h hv
+  have hsafe : allLooks safeLookCRLF h = true :=
+    allLooks_mono (by intro k hk; cases k <;> simp_all [Config.isOwnAnchor, safeLookCRLF]) h hown
+  exact matches_ctx_iff hl.ls_le hl.le_len (fun k hk => lookAt_ctx_crlf isWord hl k hk) h hsafe h1 hse h2
+
+/-- the two shapes of `find_candidate_line` after /repo 4165f41 -/
+theorem findCandidateLine_shapes (m : MatcherM) (shortest : Bytes → Option Nat) (hay : Bytes) :
+    (m.verifyOnLine = false → m.findCandidateLine shortest hay =
+      (match m.fastLits with
+       | some L => (fastFind L hay).map .candidate
+       | none => (shortest hay).map .confirmed)) ∧
+    (m.verifyOnLine = true → m.fastLits = none → m.findCandidateLine shortest hay = (shortest hay).map .candidate) :=
+  ⟨findCandidateLine_of_not_verify m shortest hay, findCandidateLine_verify m shortest hay⟩
+
+/-- A `Confirmed` answer is only given without `verify_on_line`, i.e. for own-anchor-only expressions. -/
+theorem confirmed_only_own_anchors (cfg : Config) (pats : List Bytes) (translated : Hir) (accelerated : Bool)
+    (optimize : Seq → Seq) (norm : Hir → Hir) (m : MatcherM)
+    (hb : cfg.build pats translated accelerated optimize norm = .ok m)
+    (shortest : Bytes → Option Nat) (hay : Bytes) (i : Nat)
+    (hc : m.findCandidateLine shortest hay = some (.confirmed i)) :
+    allLooks cfg.isOwnAnchor m.hir = true := by
+  apply allLooks_own_of_not_verify
+  rw [← build_verifyOnLine hb]
+  cases hv : m.verifyOnLine with
+  | false => rfl
+  | true =>
+    unfold MatcherM.findCandidateLine at hc
+    rw [hv] at hc
+    cases hf : m.fastLits with
+    | some L => rw [hf] at hc; cases hff : fastFind L hay <;> simp [hff] at hc
+    | none => rw [hf] at hc; cases hs : shortest hay <;> simp [hs] at hc
+
+/-! ### lifting, with no guard: what the re-judging searcher needs for every other pattern -/
+
+/-- **One direction of clause (b), unconditionally**: for an expression whose looks are LF anchors, ASCII word
+assertions or Unicode word assertions — every look that can still reach the fast path under an LF terminator —
+a match of a line taken alone is a match in the buffer, on EVERY line window (no continuation-byte guard: in
+the F24 zone the assertions that differ are false on the line alone), for any word table with `\n` not a word
+character. -/
+theorem LineSafeB_lift (isWord : Nat → Bool) (hw : isWord 10 = false) (h : Hir)
+    (hsafe : allLooks (fun k => safeLookLF k || safeLookU k) h = true)
+    (buf : Bytes) (ls le : Nat) (hl : IsLine 10 buf ls le) (s e : Nat) (h1 : ls ≤ s) (hse : s ≤ e)
+    (hm : Matches (lookAt isWord) h (slice buf ls le) (s - ls) (e - ls)) : Matches (lookAt isWord) h buf s e :=
+  matches_lift hl.ls_le hl.le_len
+    (fun k hk => by
+      rcases Bool.or_eq_true_iff.1 hk with hk | hk
+      · exact (lookAt_ctx_lf isWord hl k hk).lift
+      · exact lookAt_lift_unicode isWord hw (fol := (· == 10))
+          (by intro r hr; have : r = 10 := by simpa using hr
+              subst this; exact ⟨by decide, hw⟩)
+          hl.toWin k hk)
+    h hsafe h1 hse hm
+
+/-- the matcher still advertises a line terminator (so the fast path can be taken) and `crlf` is off only if
+all looks are of those fourteen kinds -/
+theorem fast_path_looks (cfg : Config) (hcrlf : cfg.crlf = false) (h : Hir)
+    (hlt : cfg.lineTerminatorOf h ≠ none) : allLooks (fun k => safeLookLF k || safeLookU k) h = true := by
+  unfold Config.lineTerminatorOf at hlt
+  split at hlt
+  · exact absurd rfl hlt
+  · rename_i hc
+    rw [hcrlf] at hc
+    simp only [Bool.not_false, Bool.and_true, Bool.or_eq_true, not_or, Bool.not_eq_true] at hc
+    have h1 := allLooks_of_not_anyLook Look.isHaystackAnchor h hc.1
+    have h2 := allLooks_of_not_anyLook Look.isCrlfAnchor h hc.2
+    exact allLooks_and_mono (by intro k ha hb; cases k <;> simp_all [Look.isHaystackAnchor, Look.isCrlfAnchor, safeLookLF, safeLookU]) h h1 h2
 
 /-- Non-vacuity: `^a\b.$` (multi-line, ASCII word boundary) satisfies the guard, and the second line
 of `x\nab\n` is a line window. -/
